@@ -123,11 +123,15 @@ class _Normalise(ast.NodeTransformer):
                 body[0].value, ast.Constant) and isinstance(body[0].value.value, str):
             body = body[1:]
         node.body = body
-        self.generic_visit(node)
         node.returns = None
         node.decorator_list = []
-        for a in node.args.args + node.args.kwonlyargs:
+        for a in node.args.args + node.args.kwonlyargs + node.args.posonlyargs:
             a.annotation = None
+        if node.args.vararg:
+            node.args.vararg.annotation = None
+        if node.args.kwarg:
+            node.args.kwarg.annotation = None
+        self.generic_visit(node)
         node.body = node.body or [ast.Pass()]
         return node
 
@@ -140,10 +144,11 @@ class _Normalise(ast.NodeTransformer):
         return node
 
     def visit_AnnAssign(self, node):
-        self.generic_visit(node)
         if node.value is None:
             return None
-        return ast.copy_location(ast.Assign(targets=[node.target], value=node.value), node)
+        new = ast.copy_location(ast.Assign(targets=[node.target], value=node.value), node)
+        self.generic_visit(new)
+        return new
 
     def visit_Constant(self, node):
         if node.value is None or isinstance(node.value, bool):
@@ -192,6 +197,21 @@ MODELLED = {
     ("proto/parserecv.py", "ParseRecv._recv_cb_enable"): {0: "cb_enable_nlen"},
     ("proto/parserecv.py", "ParseRecv._recv_cb_div"): {0: "cb_div_nlen"},
     ("proto/parserecv.py", "ParseRecv._recv_cb_start"): {0: "cb_start_len"},
+    ("proto/parse.py", "Parser._frame_set_data"): {1: "set_data_fmt"},
+    ("proto/parse.py", "Parser._frame_set_single"): {},
+    ("proto/parse.py", "Parser._frame_set_bulk"): {},
+    ("proto/parse.py", "Parser._frame_set_all"): {},
+    ("proto/parse.py", "Parser.frame_start"): {0: "start_fmt"},
+    ("proto/parse.py", "Parser.frame_cmninfo"): {},
+    ("proto/parse.py", "Parser.frame_chinfo"): {0: "chinfo_fmt"},
+    ("proto/parse.py", "Parser.frame_enable"): {5: "enable_true_byte", 6: "enable_false_byte"},
+    ("proto/parse.py", "Parser.frame_div"): {},
+    ("proto/parserecv.py", "ParseRecv.frame_start_decode"): {0: "start_decode_fmt"},
+    ("proto/parserecv.py", "ParseRecv.frame_set_decode"): {0: "set_decode_fmt"},
+    ("proto/parserecv.py", "ParseRecv.frame_enable_decode"): {
+        1: "en_bulk_code", 4: "en_single_fmt", 8: "en_all_fmt"},
+    ("proto/parserecv.py", "ParseRecv.frame_div_decode"): {
+        1: "div_bulk_code", 4: "div_single_fmt", 8: "div_all_fmt"},
     ("intf/iintf.py", "CommInterfaceCommon.data_align"): {0: "align_pad_byte"},
     ("intf/iintf.py", "CommInterfaceCommon.write"): {},
     ("intf/iintf.py", "CommInterfaceCommon.read"): {},
@@ -206,6 +226,7 @@ MODELLED = {
 DEPENDS = {
     "C01": ["SerialFrame."],
     "C02": ["SerialFrame.", "ParseRecv.recv_handle", "ParseRecv._recv_cb"],
+    "C05": ["Parser.", "ParseRecv.frame_", "ParseRecv.recv_handle", "ParseRecv._recv_cb", "SerialFrame."],
     "C17": ["CommInterfaceCommon.", "ParseRecv.recv_handle", "SerialFrame."],
     "C19": ["DDeviceChannelData.", "DDeviceData."],
 }
@@ -309,6 +330,9 @@ def run(bless=False):
             json.dump(new_blessed, f, indent=1, sort_keys=True)
 
     files = {}
+    files.update(emit_shapes(vectors))
+    if bless:
+        write_pinned(vectors)
     try:
         files.update(emit_frame(mods, consts, status))
         files.update(emit_misc(mods, consts, status))
@@ -334,6 +358,67 @@ def run(bless=False):
 HEADER = ("(* GENERATED by tools/extract.py from %s -- do not edit. *)\n"
           "From Coq Require Import String ZArith NArith List.\n"
           "Import ListNotations.\nOpen Scope Z_scope.\n\n")
+
+
+def modtag(rel):
+    return os.path.basename(rel)[:-3]
+
+
+def fn_ident(key):
+    rel, qual = key.split("::")
+    return "c_%s_%s" % (modtag(rel), qual.replace(".", "_").replace("__", "U"))
+
+
+def coq_pyc(v):
+    if isinstance(v, bool):
+        raise ShapeError("bool literal in constant vector")
+    if isinstance(v, int):
+        return "KI (%d)" % v
+    if isinstance(v, float):
+        return "KF %s" % coq_string(repr(v))
+    if isinstance(v, str):
+        return "KS %s" % coq_string(v)
+    if isinstance(v, bytes):
+        return "KB [%s]%%N" % "; ".join(str(b) for b in v)
+    raise ShapeError("literal of unsupported type: %r" % (v,))
+
+
+def shapes_text(vectors, lemma):
+    """One file per source module: constant vectors (lemma=False) or their pins."""
+    by = {}
+    for key, vec in sorted(vectors.items()):
+        by.setdefault(modtag(key.split("::")[0]), []).append((key, vec))
+    out = {}
+    for tag, items in by.items():
+        if lemma:
+            lines = ["(* GENERATED by tools/extract.py --bless: the literals of every modelled function as they",
+                     "   were when the model was last reviewed (tools/blessed.json). *)",
+                     "From Coq Require Import String ZArith NArith List.",
+                     "From NX Require Import PyConst Gen_shapes_%s." % tag,
+                     "Import ListNotations.\nOpen Scope Z_scope.\n"]
+            for key, vec in items:
+                lines.append("Lemma pin_%s : %s = [%s].\nProof. reflexivity. Qed." % (
+                    fn_ident(key)[2:], fn_ident(key), "; ".join(coq_pyc(v) for v in vec)))
+            out["Pinned_%s.v" % tag] = "\n".join(lines) + "\n"
+        else:
+            lines = [HEADER % ("src/nxslib/**/%s.py (all literals of the modelled functions, in source order)" % tag),
+                     "From NX Require Import PyConst.\n"]
+            for key, vec in items:
+                lines.append("Definition %s : list pyc := [%s]." % (
+                    fn_ident(key), "; ".join(coq_pyc(v) for v in vec)))
+            out["Gen_shapes_%s.v" % tag] = "\n".join(lines) + "\n"
+    return out
+
+
+def emit_shapes(vectors):
+    return shapes_text(vectors, lemma=False)
+
+
+def write_pinned(vectors):
+    d = os.path.join(HERE, "..", "coq", "proofs")
+    for name, text in shapes_text(vectors, lemma=True).items():
+        with open(os.path.join(d, name), "w") as f:
+            f.write(text)
 
 
 def emit_frame(mods, c, status):
@@ -365,7 +450,17 @@ def emit_frame(mods, c, status):
                "create_len_base", "create_hdr_fmt", "create_foot_fmt", "cb_cmninfo_len",
                "cb_chinfo_len", "cb_enable_nlen", "cb_div_nlen", "cb_start_len"):
         out.append(coq_const(nm, c[nm]))
-    return {"Gen_frame.v": "\n".join(out) + "\n"}
+    req = [HEADER % "src/nxslib/proto/parse.py, parserecv.py, iparse.py (request codecs)"]
+    mp = mods.get("proto/iparse.py") or Module("proto/iparse.py")
+    req.append("Definition set_flags : list (string * Z) := [%s]." % "; ".join(
+        "(%s, %d)" % (coq_string(n), v) for n, v in mp.enum("EParseIdSetFlags")))
+    req.append("Definition stream_flags : list (string * Z) := [%s]." % "; ".join(
+        "(%s, %d)" % (coq_string(n), v) for n, v in mp.enum("EParseStreamFlags")))
+    for nm in ("set_data_fmt", "start_fmt", "chinfo_fmt", "enable_true_byte", "enable_false_byte",
+               "start_decode_fmt", "set_decode_fmt", "en_bulk_code", "en_single_fmt", "en_all_fmt",
+               "div_bulk_code", "div_single_fmt", "div_all_fmt"):
+        req.append(coq_const(nm, c[nm]))
+    return {"Gen_frame.v": "\n".join(out) + "\n", "Gen_req.v": "\n".join(req) + "\n"}
 
 
 def emit_misc(mods, c, status):
